@@ -6,7 +6,7 @@
     map since the repair of D10). *)
 From Coq Require Import List NArith Bool String Permutation.
 From Seccomp Require Import Words Result Machine Assembler Policy Tables Text TextProofs PolicyTop Determinism.
-From Gen Require Import GenTables GenArches GenNames.
+From Gen Require Import GenTables GenArches GenNames GenAmbient.
 Import ListNotations.
 Open Scope N_scope.
 
@@ -52,3 +52,14 @@ Theorem C13_cached_arch_same_program : forall goarch le k pol ai,
 Proof. intros goarch le k pol ai H. unfold policy_assemble. rewrite H. reflexivity. Qed.
 Print Assumptions C13_cached_arch_same_program.
 
+
+
+(* "Equal policies compile to identical programs across processes": the program is a function of the policy value (and
+   the build). The regenerated list of references, in the library's own packages, to anything else a process can read -
+   environment variables, files, the clock, the machine's name, the scheduler's configuration (translator/ambient.go
+   says which names count) - is empty in the current sources: the compiler, the tables and the loader have no such
+   input. (The check also RUNS the implementation in hostile surroundings - lib/ambient.py - which is where a failing
+   input comes from when this breaks.) *)
+Theorem C13_library_reads_no_ambient_state : ambient_refs = [].
+Proof. vm_compute. reflexivity. Qed.
+Print Assumptions C13_library_reads_no_ambient_state.
